@@ -158,6 +158,35 @@ theorem c19_gen_restored_duration (saved now : BitVec 64) (hs : -2 ^ 62 ≤ save
       rw [h1]; omega
   exact ⟨key, key⟩
 
+/-- **F20 (open known finding)**: outside that range the statement is false of the code.  When the saved deadline lies 2^63 ns
+    or more ahead of the loading cache's clock, the int64 subtraction wraps negative and the duration handed to
+    SetExpiresAfter / SetRefreshableAfter is ONE nanosecond: the entry is restored as due right after the load, not at its saved
+    deadline (C19 quantifies over all clock offsets).  Replayed on the implementation by corpus/seq/F20_* and the SEQ persist
+    profile's wrapLoad scripts; listed in KNOWN_FINDINGS; `c19_gen_restored_duration` above is the `_partial` statement. -/
+theorem c19_restored_duration_wraps (saved now : BitVec 64) (h : saved.toInt - now.toInt ≥ 2 ^ 63) :
+    (Gen.PersistSites.LoadCacheFrom_a8 saved now).toInt = 1 ∧ (Gen.PersistSites.LoadCacheFrom_a9 saved now).toInt = 1 := by
+  have hs := BitVec.toInt_lt (x := saved)
+  have hn := BitVec.le_toInt (x := now)
+  have hsub : (saved - now).toInt = saved.toInt - now.toInt - 2 ^ 64 := by
+    rw [BitVec.toInt_sub]
+    have hlt : saved.toInt - now.toInt < 2 ^ 64 := by omega
+    unfold Int.bmod
+    simp only [Nat.reducePow, Int.reducePow] at *
+    split <;> omega
+  have key : (Bv.smax (1#64) (saved - now)).toInt = 1 := by
+    unfold Bv.smax
+    have h1 : (1#64).toInt = 1 := by decide
+    have hf : BitVec.slt (1#64) (saved - now) = false := by
+      rw [BitVec.slt_eq_decide, h1, hsub]
+      simp only [decide_eq_false_iff_not, Int.not_lt]
+      omega
+    simp only [hf, Bool.false_eq_true, ↓reduceIte]
+    exact h1
+  exact ⟨key, key⟩
+
+/-- the witness of corpus/seq/F20_load_duration_wrap.script: saved deadline 2^62 + 1000 + 1 h, load clock -2^62 + 1808 -/
+example : (Gen.PersistSites.LoadCacheFrom_a8 4611689618427388904#64 (BitVec.ofInt 64 (-4611686018427386096))).toInt = 1 := by decide
+
 /-- an entry is skipped iff the cache expires entries and the saved deadline is at or before the load instant (`≤`: a deadline
     equal to the load instant is expired), and deadlines that mean "never" are not restored -/
 theorem c19_gen_filter (w : Bool) (saved now : BitVec 64) :
